@@ -317,6 +317,9 @@ def do_index(interp, obj, idx, path):
         return seq_index(interp, obj.term, idx, path)
     if isinstance(obj, DictV):
         return dict_get(interp, obj, idx, path)
+    from .values import RecV
+    if isinstance(obj, RecV):
+        return interp.rec_get(obj, idx, path)
     if obj is None:
         interp.raise_builtin('TypeError', "'NoneType' object is not subscriptable")
     if isinstance(obj, (ObjV, DtV)):
